@@ -23,7 +23,7 @@ class Acc:
     budget = None  # executions this shard may spend in choice-point exploration (None = unlimited)
     spent = 0
 
-    def explore(self, run, **kw):
+    def explore(self, run, label=None, **kw):
         """choice-point exploration under the shard's execution budget.  On the code as it stands the budget is several
         times what is needed; it only guarantees termination when a change of the code under test multiplies the number
         of choice points.  Capped or skipped configurations are counted and make the run non-exhaustive."""
@@ -41,6 +41,8 @@ class Acc:
             yield item
         if stats.get("capped"):
             self.count("configurations-capped-by-budget")
+            if label is not None:
+                self.count("capped: " + str(label)[:120])
 
     def pack(self):
         return (self.violations, self.counts, self.evaluations, self.nontrivial, self.outcomes)
